@@ -1,11 +1,13 @@
 package main
 
 import (
+	"encoding/json"
 	"flag"
 	"fmt"
 	"os"
 	"sort"
 	"strconv"
+	"strings"
 	"time"
 
 	"qverif/checks"
@@ -28,6 +30,8 @@ func main() {
 		walkCmd(os.Args[2:])
 	case "check":
 		os.Exit(checkCmd(os.Args[2:]))
+	case "replay":
+		os.Exit(replayCmd(os.Args[2:]))
 	case "list":
 		for _, id := range checks.IDs() {
 			fmt.Println(id, checks.Lookup(id).Desc)
@@ -36,6 +40,64 @@ func main() {
 		fmt.Println("unknown command")
 		os.Exit(2)
 	}
+}
+
+// replayCmd re-analyses /repo for the property of a recorded violation and reports whether the same
+// construct is still violated (exit 1) or not (exit 0).
+func replayCmd(args []string) int {
+	if len(args) < 1 {
+		fmt.Println("usage: qverif replay <replay.json>")
+		return 2
+	}
+	b, err := os.ReadFile(args[0])
+	if err != nil {
+		fmt.Println(err)
+		return 2
+	}
+	var rec struct {
+		Property string `json:"property"`
+		Key      string `json:"key"`
+		Detail   string `json:"detail"`
+	}
+	if err := json.Unmarshal(b, &rec); err != nil {
+		fmt.Println(err)
+		return 2
+	}
+	fmt.Printf("replaying %s: %s\n  recorded: %s\n", rec.Property, rec.Key, rec.Detail)
+	tmp, _ := os.MkdirTemp("", "qverif-replay")
+	defer os.RemoveAll(tmp)
+	code := checkCmd([]string{"-prop", rec.Property, "-verif", tmp})
+	ev, _ := os.ReadFile(tmp + "/evidence/" + rec.Property + ".json")
+	still := strings.Contains(string(ev), strconv.Quote(rec.Key)[1:len(strconv.Quote(rec.Key))-1]) && code == 1
+	_ = still
+	// the evidence lists every non-discharged obligation with its key
+	var evd struct {
+		Coverage struct {
+			Samples []json.RawMessage `json:"samples"`
+		} `json:"coverage"`
+	}
+	_ = json.Unmarshal(ev, &evd)
+	found := false
+	for _, s := range evd.Coverage.Samples {
+		var o struct {
+			Rule, Construct, What, Status string
+		}
+		if json.Unmarshal(s, &o) == nil && o.Status == "VIOLATED" {
+			k := o.Rule + "|" + o.Construct
+			if o.What != "" {
+				k += "|" + o.What
+			}
+			if k == rec.Key {
+				found = true
+			}
+		}
+	}
+	if found {
+		fmt.Println("REPLAY: the recorded violation is still present")
+		return 1
+	}
+	fmt.Println("REPLAY: the recorded violation is no longer reported")
+	return 0
 }
 
 func checkCmd(args []string) int {
